@@ -1,9 +1,9 @@
 ------------------------------- MODULE MC_Outcome -------------------------------
 EXTENDS Outcome, TLC, Json
 F(n, d, c) == [name |-> n, dim |-> d, cells |-> c]
-\* tiny grids: 1x6, 3x3, 2x2x2, cylindrical 3x3 (with and without periodic z), polar 4, spherical 4
-FamLoc == {F("cart1", 1, 6), F("cart2", 2, 9), F("cart3", 3, 8), F("cyl", 3, 9), F("cylp", 3, 9), F("polar", 2, 4), F("spherical", 3, 4)}
-FamLocT == {F("cart1", 1, 8), F("cart2", 2, 12), F("cart3", 3, 12), F("cyl", 3, 12), F("cylp", 3, 12), F("polar", 2, 6), F("spherical", 3, 6)}
+\* tiny grids: 3x3 with a 10:1 spacing ratio (cart2a), 1x6, 3x3, 2x2x2, cylindrical 3x3 (with and without periodic z), polar 4, spherical 4
+FamLoc == {F("cart2a", 2, 9), F("cart1", 1, 6), F("cart2", 2, 9), F("cart3", 3, 8), F("cyl", 3, 9), F("cylp", 3, 9), F("polar", 2, 4), F("spherical", 3, 4)}
+FamLocT == {F("cart2a", 2, 12), F("cart1", 1, 8), F("cart2", 2, 12), F("cart3", 3, 12), F("cyl", 3, 12), F("cylp", 3, 12), F("polar", 2, 6), F("spherical", 3, 6)}
 FamRender == {F("cart1", 1, 0), F("cart2", 2, 0), F("cart3", 3, 0), F("cyl", 3, 0), F("polar", 2, 0), F("spherical", 3, 0)}
 C(c, d) == [cls |-> c, dim |-> d]
 AllClasses == {C("SphericalDroplet", 1), C("SphericalDroplet", 2), C("SphericalDroplet", 3), C("DiffuseDroplet", 1),
